@@ -302,14 +302,14 @@ def stream_spec(tlen, nops, timeout):
 
 def run(rep, tier, seed):
     quick = tier == "quick"
-    to = 60 if quick else 600
+    to = 60 if quick else 240
     rep.encoded("src/basilisp/lang/reader.py", ["read_str", "read", "_read_next", "_read_coll", "_read_sym", "_read_num", "_read_str",
                                                  "_read_reader_macro", "_read_meta", "StreamReader.next_char", "StreamReader._update_loc",
                                                  "StreamReader.pushback", "StreamReader.advance", "_with_loc"],
                 "executed on CrossHair proxies / solver-chosen alphabet indices")
     specs = [stream_spec(3 if quick else 4, 3 if quick else 5, to)]
     if not quick:
-        specs.append(total_unicode_spec(1, 1500))
+        specs.append(total_unicode_spec(1, 900))
     na, ne, ns = (2, 2, 3) if quick else (3, 4, 4)
     specs += [total_alpha_spec(na, to, f) for f in range(len(ALPHA_DELIM))]
     specs += [total_token_spec(TOKENS_DISPATCH, "dispatch", 2 if quick else 3, to * 2, f) for f in range(len(TOKENS_DISPATCH))]
@@ -317,9 +317,7 @@ def run(rep, tier, seed):
     specs += [eof_spec(ne, to, f) for f in range(len(ALPHA_EOF))]
     specs += [span_spec(ns, to, f) for f in range(len(ALPHA_SPAN))]
     specs += [newline_spec(4 if quick else 5, to * 2, f) for f in range(len(ALPHA_NL))]
-    if not quick:
-        specs += [total_unicode_spec(2, 1800)]
-    rep.bounds = {"unicode": "thorough only: all strings of <= 1 / <= 2 code points (CrossHair needs > 150 s for one symbolic character: the reader classifies characters with regexes)",
+    rep.bounds = {"unicode": "thorough only: all strings of <= 1 code point (CrossHair needs > 150 s for one symbolic character: the reader classifies characters with regexes)",
                   "delimiter alphabet": f"{len(ALPHA_DELIM)} characters, length <= 3 (quick) / 5 (thorough)",
                   "eof": "length <= 3 / 5", "spans": "<= 4 / 5 tokens incl. CR, CRLF, LF and a multi-byte character"}
     rep.outside = ["longer inputs", "syntax-quoted forms' locations", "data readers with custom tags / reader conditionals with custom features",
